@@ -530,6 +530,10 @@ func (t *TableAliasStmtInfo) getAliasTable(alias string) (string, bool) {
 	return table, ok
 }
 
+func isGlobalTableRule(rule router.Rule) bool {
+	return rule.GetType() == router.GlobalTableRuleType
+}
+
 // TODO: 删除该函数
 // 根据StmtNode和路由信息生成分片SQL
 func generateShardingSQLs(stmt ast.StmtNode, result *RouteResult, router *router.Router) (map[string]map[string][]string, error) {
@@ -554,6 +558,12 @@ func generateShardingSQLs(stmt ast.StmtNode, result *RouteResult, router *router
 		if !ok {
 			sliceSQLs = make(map[string][]string)
 			ret[sliceName] = sliceSQLs
+		}
+
+		// several locations of a global table on one slice without a databases list are
+		// one and the same physical table: it must get the statement once, not once per location
+		if isGlobalTableRule(rule) && len(ret[sliceName][dbName]) > 0 {
+			continue
 		}
 
 		ret[sliceName][dbName] = append(ret[sliceName][dbName], sb.String())
